@@ -663,6 +663,117 @@ explore (const char *cfg, int bound, int canary, long max_schedules)
   return found;
 }
 
+/* ---- libc functions with hidden static state ---------------------------------------------------------------------
+   glibc keeps these buffers inside libc, which is neither instrumented nor part of the library image, so a call from two
+   threads would go unseen.  They are modelled here (same results as glibc where the result is defined; the generators only
+   need to be deterministic, because the "alone" reference runs under the same model) with their state placed in
+   libc_hidden, which main() registers as one more range of the shared image: accesses are scheduling points and take part
+   in race detection exactly like the library's own statics.  The executable's definitions win symbol resolution. */
+#include <time.h>
+static struct
+{
+  char l64a_buf[8];
+  char *strtok_save;
+  unsigned long rand_state;
+  struct tm tm;
+} libc_hidden;
+
+char *l64a (long n);
+char *
+l64a (long n)
+{
+  static const char tbl[] = "./0123456789ABCDEFGHIJKLMNOPQRSTUVWXYZabcdefghijklmnopqrstuvwxyz";
+  unsigned long v = (unsigned long) n & 0xffffffffUL;
+  char tmp[8];
+  size_t i = 0;
+  for (; v && i < 6; v >>= 6)
+    tmp[i++] = tbl[v & 63];
+  tmp[i] = 0;
+  memcpy (libc_hidden.l64a_buf, tmp, i + 1);
+  return libc_hidden.l64a_buf;
+}
+
+char *strtok (char *s, const char *delim);
+char *
+strtok (char *s, const char *delim)
+{
+  if (!s)
+    {
+      access_hook (&libc_hidden.strtok_save, sizeof (char *), 0);
+      s = libc_hidden.strtok_save;
+    }
+  if (!s)
+    return 0;
+  while (*s && strchr (delim, *s))
+    s++;
+  char *tok = *s ? s : 0;
+  while (*s && !strchr (delim, *s))
+    s++;
+  if (*s)
+    {
+      access_hook (s, 1, 1);
+      *s++ = 0;
+    }
+  access_hook (&libc_hidden.strtok_save, sizeof (char *), 1);
+  libc_hidden.strtok_save = tok ? s : 0;
+  return tok;
+}
+
+static unsigned long
+hidden_prng_step (void)
+{
+  access_hook (&libc_hidden.rand_state, sizeof libc_hidden.rand_state, 0);
+  unsigned long x = libc_hidden.rand_state * 6364136223846793005UL + 1442695040888963407UL;
+  access_hook (&libc_hidden.rand_state, sizeof libc_hidden.rand_state, 1);
+  libc_hidden.rand_state = x;
+  return x >> 33;
+}
+
+static void
+hidden_prng_seed (unsigned long v)
+{
+  access_hook (&libc_hidden.rand_state, sizeof libc_hidden.rand_state, 1);
+  libc_hidden.rand_state = v;
+}
+int rand (void);
+int rand (void) { return (int) (hidden_prng_step () & 0x7fffffff); }
+void srand (unsigned v);
+void srand (unsigned v) { hidden_prng_seed (v); }
+long random (void);
+long random (void) { return (long) (hidden_prng_step () & 0x7fffffff); }
+void srandom (unsigned v);
+void srandom (unsigned v) { hidden_prng_seed (v); }
+long lrand48 (void);
+long lrand48 (void) { return (long) (hidden_prng_step () & 0x7fffffff); }
+long mrand48 (void);
+long mrand48 (void) { return (long) (int) (hidden_prng_step () & 0xffffffff); }
+double drand48 (void);
+double drand48 (void) { return (double) (hidden_prng_step () & 0x7fffffff) / 2147483648.0; }
+void srand48 (long v);
+void srand48 (long v) { hidden_prng_seed ((unsigned long) v); }
+
+struct tm *gmtime (const time_t *t);
+struct tm *
+gmtime (const time_t *t)
+{
+  struct tm tmp;
+  if (!gmtime_r (t, &tmp))
+    return 0;
+  memcpy (&libc_hidden.tm, &tmp, sizeof tmp);
+  return &libc_hidden.tm;
+}
+
+struct tm *localtime (const time_t *t);
+struct tm *
+localtime (const time_t *t)
+{
+  struct tm tmp;
+  if (!localtime_r (t, &tmp))
+    return 0;
+  memcpy (&libc_hidden.tm, &tmp, sizeof tmp);
+  return &libc_hidden.tm;
+}
+
 static void
 mkops (void)
 {
@@ -751,6 +862,14 @@ main (int argc, char **argv)
   vh_mmap_cap = (size_t) 64 << 20;
   vh_on_map = on_map;
   vh_img_find ();
+  if (vh_nimg && vh_nimg < 8)
+    {
+      /* the modelled hidden state of libc belongs to the state shared between threads */
+      vh_img[vh_nimg].p = (unsigned char *) &libc_hidden;
+      vh_img[vh_nimg].n = sizeof libc_hidden;
+      vh_img_total += sizeof libc_hidden;
+      vh_nimg++;
+    }
   if (!vh_nimg)
     vh_internal ("library image not found");
   sh_writer = malloc (vh_img_total);
@@ -779,7 +898,16 @@ main (int argc, char **argv)
     static const char *const known[] = { "__assert_fail", "__errno_location", "arc4random_buf", "explicit_bzero", "free", "malloc", "realloc", "memcmp", "memcpy",
       "memmove", "memset", "mmap", "munmap", "snprintf", "strchr", "strcspn", "strlen", "strncmp", "strrchr", "strspn", "strtoul", "__cxa_finalize",
       "_ITM_deregisterTMCloneTable", "_ITM_registerTMCloneTable", "__gmon_start__", "__stack_chk_fail", "abort", "calloc", "strcmp", "strcpy", "memchr", "strnlen",
-      "madvise", "strncpy", "strcat", "strncat", "memrchr", "strstr", "strtol", "strtoull", "strtoll", "getrandom", "getentropy", 0
+      "madvise", "strncpy", "strcat", "strncat", "memrchr", "strstr", "strtol", "strtoull", "strtoll", "getrandom", "getentropy", "a64l",
+      /* hidden static state, modelled above */
+      "l64a", "strtok", "rand", "srand", "random", "srandom", "lrand48", "mrand48", "drand48", "srand48", "gmtime", "localtime", 0
+    };
+    /* functions POSIX marks as not thread-safe for which there is no model: their state would be invisible */
+    static const char *const unsafe[] = { "getpwnam", "getpwuid", "getgrnam", "getgrgid", "getspnam", "readdir", "ttyname", "getlogin", "ptsname", "setlocale", "ecvt", "fcvt",
+      "gcvt", "tmpnam", "inet_ntoa", "strsignal", "ctime", "asctime", "getpass", "crypt", "crypt_gensalt", "setkey", "encrypt", "dirname", "basename", "hcreate", "hsearch",
+      "mblen", "mbtowc", "wctomb", "nl_langinfo", "getdate", "erand48", "jrand48", "nrand48", "lcong48", "seed48", "initstate", "setstate", "getopt",
+      "gethostbyname", "gethostbyaddr", "getservbyname", "getprotobyname", "getnetbyname", "getutent", "getutid", "getutline", "lgamma", "catgets", "localeconv", "wcstombs",
+      "wcrtomb", "mbrtowc", "mbrlen", "mbsrtowcs", "wcsrtombs", "tempnam", "fgetgrent", "fgetpwent", "getmntent", "gamma", 0
     };
     while (f && fgets (sym, sizeof sym, f))
       {
@@ -792,6 +920,9 @@ main (int argc, char **argv)
             ok = 1;
         /* synchronisation primitives and thread-local storage would need their own scheduling points: refuse to judge.  Any
            other new import is recorded as an assumption (treated as a pure function of its arguments) and the run goes on */
+        for (int i = 0; !ok && unsafe[i]; i++)
+          if (!strcmp (unsafe[i], sym))
+            vh_internal ("the library imports '%s', which keeps hidden static state inside libc and has no model here", sym);
         if (!ok && (!strncmp (sym, "pthread_", 8) || !strncmp (sym, "sem_", 4) || !strncmp (sym, "__tls", 5) || !strncmp (sym, "mtx_", 4) || !strncmp (sym, "cnd_", 4) || !strncmp (sym, "call_once", 9)))
           vh_internal ("the library imports '%s', which this scheduler does not model (synchronisation or hidden libc state)", sym);
         if (!ok)
